@@ -9,6 +9,8 @@
 //!   ln <text|cerr|band> <bytes>                        PacketLineRef::Data(bytes).{as_text,check_error,decode_band}
 //!   rd <failOnErr> <delims> <chunks> <script> <stream> StreamingPeekableIter; script: r=read_line p=peek_line *=read to end
 //!   sb <handler> <delims> <chunks> <reads> <stream>    WithSidebands::read with the given buffer sizes
+//!   sbc <handler> <delims> <chunks> <calls> <stream>   WithSidebands calls: f=fill_buf c<amt>=consume r<n>=read
+//!                                                      <handler>: 0 none, 1 always Continue, i<k> Interrupt at call k
 //!   wr <bin|text> <bytes>                              Writer::write_all
 //!
 //! <bytes>  = hex | `-` | `x<count>:<hexpattern>` (pattern repeated to count bytes)
@@ -17,9 +19,21 @@
 use gix_packetline::{decode, encode, read::ProgressAction, Channel, PacketLineRef, StreamingPeekableIter};
 use hcommon::*;
 use std::cell::RefCell;
-use std::io::{self, Read, Write};
+use std::io::{self, BufRead, Read, Write};
 
 const MAX_DATA_LEN: usize = 65516;
+
+thread_local! {
+    /// set by the progress handlers when they answer `Interrupt`; a call during which that happened must fail
+    static INTERRUPTED: std::cell::Cell<bool> = const { std::cell::Cell::new(false) };
+    static IGNORED_INTERRUPT: std::cell::Cell<bool> = const { std::cell::Cell::new(false) };
+}
+
+fn note_call_result(ok: bool) {
+    if INTERRUPTED.with(|f| f.replace(false)) && ok {
+        IGNORED_INTERRUPT.with(|f| f.set(true));
+    }
+}
 
 fn fnv64(bs: &[u8]) -> u64 {
     let mut h: u64 = 0xcbf29ce484222325;
@@ -248,6 +262,8 @@ fn io_obs(e: &io::Error) -> String {
                     encode::Error::DataLengthLimitExceeded { length_in_bytes } => format!("err:toolong:{length_in_bytes}"),
                     encode::Error::DataIsEmpty => "err:empty".into(),
                 }
+            } else if inner.to_string() == "interrupted by user" {
+                "interrupted".into()
             } else {
                 format!("io:custom:{}", inner)
             }
@@ -719,7 +735,9 @@ fn drive<T: Read, F: FnMut(bool, &[u8]) -> ProgressAction>(
     let mut end = "sizes".to_string();
     for i in 0..max_calls {
         let mut buf = vec![0u8; reads[i % reads.len()]];
-        match reader.read(&mut buf) {
+        let res = reader.read(&mut buf);
+        note_call_result(res.is_ok());
+        match res {
             Ok(0) => {
                 end = "eof".into();
                 break;
@@ -738,7 +756,16 @@ fn drive<T: Read, F: FnMut(bool, &[u8]) -> ProgressAction>(
     (end, stop)
 }
 
-fn run_sb(stream: &[u8], handler: bool, delims: &'static [PacketLineRef<'static>], sizes: &[usize], reads: &[usize]) -> SbRun {
+fn parse_handler(s: &str) -> Option<(bool, Option<usize>)> {
+    match s {
+        "0" => Some((false, None)),
+        "1" => Some((true, None)),
+        _ => Some((true, Some(s.strip_prefix('i')?.parse().ok()?))),
+    }
+}
+
+fn run_sb(stream: &[u8], handler: (bool, Option<usize>), delims: &'static [PacketLineRef<'static>], sizes: &[usize], reads: &[usize]) -> SbRun {
+    let (handler, intr) = handler;
     let out = RefCell::new(Vec::new());
     let log = RefCell::new(Vec::new());
     let r = catch(|| {
@@ -746,8 +773,14 @@ fn run_sb(stream: &[u8], handler: bool, delims: &'static [PacketLineRef<'static>
         let max_calls = stream.len() + 2;
         let (end, stop) = if handler {
             let h = |is_err: bool, text: &[u8]| {
+                let n = log.borrow().len();
                 log.borrow_mut().push((is_err, text.to_vec()));
-                ProgressAction::Continue
+                if Some(n) == intr {
+                    INTERRUPTED.with(|f| f.set(true));
+                    ProgressAction::Interrupt
+                } else {
+                    ProgressAction::Continue
+                }
             };
             drive(rd.as_read_with_sidebands(h), reads, max_calls, &out)
         } else {
@@ -775,16 +808,13 @@ fn sb_obs(r: &SbRun) -> String {
 }
 
 fn op_sb(rep: &mut Report, op: &str, a: &[&str]) -> Option<()> {
-    let handler = match a[0] {
-        "1" => true,
-        "0" => false,
-        _ => return None,
-    };
+    let hspec = parse_handler(a[0])?;
+    let handler = hspec.0;
     let delims = parse_delims(a[1])?;
     let sizes = parse_sizes(a[2])?;
     let reads = parse_sizes(a[3])?;
     let (stream, items) = parse_stream(a[4])?;
-    let run = run_sb(&stream, handler, delims, &sizes, &reads);
+    let run = run_sb(&stream, hspec, delims, &sizes, &reads);
     let obs = sb_obs(&run);
     rep.case(op, &obs, true);
     rep.bucket(&format!(
@@ -794,6 +824,14 @@ fn op_sb(rep: &mut Report, op: &str, a: &[&str]) -> Option<()> {
         run.end.split(':').take(3).collect::<Vec<_>>().join(":")
     ));
     rep.oracle_checked();
+    if IGNORED_INTERRUPT.with(|f| f.replace(false)) {
+        rep.oracle_failure(
+            &format!("interrupt-ignored {}", fnv_key(op)),
+            &format!("the progress handler answered Interrupt but the read call succeeded: {obs}"),
+            op,
+        );
+    }
+    INTERRUPTED.with(|f| f.set(false));
     if run.end == "panic" {
         rep.oracle_failure(
             &format!("sideband-panic {}", if stream.len() <= 16 { hex(&stream) } else { fnv_key(op) }),
@@ -803,7 +841,7 @@ fn op_sb(rep: &mut Report, op: &str, a: &[&str]) -> Option<()> {
         return Some(());
     }
     // independent of chunking and of the caller's buffer sizes
-    let whole = run_sb(&stream, handler, delims, &[stream.len().max(1)], &[1 << 17]);
+    let whole = run_sb(&stream, hspec, delims, &[stream.len().max(1)], &[1 << 17]);
     if (&whole.data, &whole.log, &whole.end, &whole.stop, &whole.left) != (&run.data, &run.log, &run.end, &run.stop, &run.left) {
         rep.oracle_failure(
             &format!("sideband-chunking-dependence {}", fnv_key(op)),
@@ -812,7 +850,7 @@ fn op_sb(rep: &mut Report, op: &str, a: &[&str]) -> Option<()> {
         );
     }
     // written bands: data concatenated, progress / error texts in order, up to the first flush
-    if let (Some(items), true) = (&items, handler && a[1] == "F") {
+    if let (Some(items), true) = (&items, handler && hspec.1.is_none() && a[1] == "F") {
         let mut data = Vec::new();
         let mut log = Vec::new();
         let mut well_formed = true;
@@ -840,6 +878,130 @@ fn op_sb(rep: &mut Report, op: &str, a: &[&str]) -> Option<()> {
                 &format!("expected data={} and {} progress messages then eof at the flush, got {}", bobs(&data), log.len(), obs),
                 op,
             );
+        }
+    }
+    Some(())
+}
+
+#[derive(Clone, Copy)]
+enum SbCall {
+    Fill,
+    Consume(usize),
+    Read(usize),
+}
+
+fn parse_sb_calls(s: &str) -> Option<Vec<SbCall>> {
+    s.split(',')
+        .map(|x| {
+            if x == "f" {
+                Some(SbCall::Fill)
+            } else if let Some(n) = x.strip_prefix('c') {
+                Some(SbCall::Consume(n.parse().ok()?))
+            } else if let Some(n) = x.strip_prefix('r') {
+                Some(SbCall::Read(n.parse().ok()?))
+            } else {
+                None
+            }
+        })
+        .collect()
+}
+
+fn drive_calls<T: Read, F: FnMut(bool, &[u8]) -> ProgressAction>(
+    mut reader: gix_packetline::read::WithSidebands<'_, T, F>,
+    calls: &[SbCall],
+    obs: &RefCell<Vec<String>>,
+) {
+    for c in calls {
+        let o = match *c {
+            SbCall::Fill => match reader.fill_buf() {
+                Ok(b) => {
+                    note_call_result(true);
+                    format!("b:{}", bobs(b))
+                }
+                Err(e) => {
+                    note_call_result(false);
+                    format!("err:{}", io_obs(&e))
+                }
+            },
+            SbCall::Consume(n) => {
+                reader.consume(n);
+                "c".to_string()
+            }
+            SbCall::Read(n) => {
+                let mut buf = vec![0u8; n];
+                let res = reader.read(&mut buf);
+                note_call_result(res.is_ok());
+                match res {
+                    Ok(k) => format!("b:{}", bobs(&buf[..k])),
+                    Err(e) => format!("err:{}", io_obs(&e)),
+                }
+            }
+        };
+        obs.borrow_mut().push(o);
+    }
+}
+
+fn op_sbc(rep: &mut Report, op: &str, a: &[&str]) -> Option<()> {
+    let (handler, intr) = parse_handler(a[0])?;
+    let delims = parse_delims(a[1])?;
+    let sizes = parse_sizes(a[2])?;
+    let calls = parse_sb_calls(a[3])?;
+    let (stream, _) = parse_stream(a[4])?;
+    let obs = RefCell::new(Vec::new());
+    let log = RefCell::new(Vec::<(bool, Vec<u8>)>::new());
+    let r = catch(|| {
+        let mut rd = StreamingPeekableIter::new(Chunked::new(stream.clone(), &sizes), delims, false);
+        if handler {
+            let h = |is_err: bool, text: &[u8]| {
+                let n = log.borrow().len();
+                log.borrow_mut().push((is_err, text.to_vec()));
+                if Some(n) == intr {
+                    INTERRUPTED.with(|f| f.set(true));
+                    ProgressAction::Interrupt
+                } else {
+                    ProgressAction::Continue
+                }
+            };
+            drive_calls(rd.as_read_with_sidebands(h), &calls, &obs)
+        } else {
+            drive_calls(rd.as_read(), &calls, &obs)
+        }
+    });
+    let mut obs = obs.into_inner();
+    if r.is_err() {
+        obs.push("panic".into());
+    }
+    let prog: Vec<String> = log
+        .into_inner()
+        .iter()
+        .map(|(e, t)| format!("{}:{}", if *e { "e" } else { "p" }, bobs(t)))
+        .collect();
+    rep.case(op, &format!("{} prog=[{}]", obs.join("|"), prog.join(",")), true);
+    let legal = calls.iter().all(|c| !matches!(c, SbCall::Consume(n) if *n as u64 > u64::MAX - 65536));
+    rep.bucket(&format!(
+        "sbc:{}:{}:{}",
+        if handler { if intr.is_some() { "interrupting" } else { "bands" } } else { "plain" },
+        if legal { "legal" } else { "illegal-consume" },
+        if r.is_err() { "panic" } else { "ok" }
+    ));
+    rep.oracle_checked();
+    if IGNORED_INTERRUPT.with(|f| f.replace(false)) {
+        rep.oracle_failure(
+            &format!("interrupt-ignored {}", fnv_key(op)),
+            &format!("the progress handler answered Interrupt but the call succeeded: {}", obs.join("|")),
+            op,
+        );
+    }
+    INTERRUPTED.with(|f| f.set(false));
+    if r.is_err() {
+        if legal {
+            rep.oracle_failure(
+                &format!("sideband-panic {}", fnv_key(op)),
+                &format!("WithSidebands panicked although every consume() amount is legal; calls so far: {}", obs.join("|")),
+                op,
+            );
+        } else {
+            rep.outside_domain("consume() with an amount near usize::MAX overflows pos + amt (caller contract violated)");
         }
     }
     Some(())
@@ -910,6 +1072,7 @@ fn run_op(rep: &mut Report, op: &str) {
             ("ln", 3) => op_ln(rep, op, a[1], &parse_bytes(a[2])?),
             ("rd", 6) => op_rd(rep, op, &a[1..])?,
             ("sb", 6) => op_sb(rep, op, &a[1..])?,
+            ("sbc", 6) => op_sbc(rep, op, &a[1..])?,
             ("wr", 3) => op_wr(rep, op, a[1], &parse_bytes(a[2])?)?,
             _ => return None,
         }
@@ -1119,7 +1282,22 @@ fn gen_sb(r: &mut Rng) -> String {
         4 => "4,65516".into(),
         _ => (700 + r.usize(3000)).to_string(),
     };
-    format!("sb {} {} {} {} {}", handler as u8, delims, gen_chunks(r, total), reads, parts.join("+"))
+    let hspec = if handler && r.chance(1, 5) { format!("i{}", r.below(4)) } else { (handler as u8).to_string() };
+    if r.chance(1, 4) {
+        // explicit fill_buf / consume / read sequences
+        let n = 1 + r.usize(10);
+        let calls: Vec<String> = (0..n)
+            .map(|_| match r.below(6) {
+                0 | 1 => "f".to_string(),
+                2 => format!("c{}", *r.pick(&[0usize, 1, 2, 3, 5, 100, 70000, 1 << 40])),
+                3 => format!("c{}", r.usize(12)),
+                4 => format!("r{}", *r.pick(&[0usize, 1, 2, 7, 65536])),
+                _ => format!("r{}", 1 + r.usize(50)),
+            })
+            .collect();
+        return format!("sbc {} {} {} {} {}", hspec, delims, gen_chunks(r, total), calls.join(","), parts.join("+"));
+    }
+    format!("sb {} {} {} {} {}", hspec, delims, gen_chunks(r, total), reads, parts.join("+"))
 }
 
 /// the whole 16-bit prefix space against the real reader, followed by enough bytes: never a
@@ -1256,6 +1434,22 @@ fn corpus(rep: &mut Report, thorough: bool) {
         "sb 1 F 7 2 1.61+30303033+1.62+F",
         "sb 1 F 7 2 1.61+66666666",
         "sb 1 F 7 2 1.61+3030",
+    ] {
+        run_op(rep, s);
+    }
+    // fill_buf / consume / read call sequences, the interrupting handler, the consume() contract
+    for s in [
+        "sbc 1 F 7 f,f,c1,f,c1,f,c5,f 1.616263+1.64+F",
+        "sbc 1 F 7 f,c0,f,c100,f,r2,f 1.616263+2.700a+1.64+F",
+        "sbc 0 F 3 f,c2,r1,f,c70000,f,f d.616263+d.64+F",
+        "sbc 1 - 3 r4,f,c1,f 1.6162+3030303504+1.63",
+        "sbc 1 F 2 f,c18446744073709551615 1.61+F",           // Props.C29.consume_overflow_panics (illegal amount)
+        "sbc 1 F 2 c18446744073709551615,f 1.61+F",           // the same amount before anything was read: pos = 0, no overflow
+        "sbc i0 F 4 r9,r9,r9 2.6f6e65+1.61+2.74776f+1.62+F",
+        "sbc i1 F 4 r9,r9,r9,r9 2.6f6e65+1.61+3.74776f+1.62+F",
+        "sbc i5 F 4 r9,r9,r9,r9 2.6f6e65+1.61+3.74776f+1.62+F",
+        "sb i0 F 4 9 3030303502+1.61+F",
+        "sb i1 F 1 1 2.61+2.62+2.63+1.64+F",
     ] {
         run_op(rep, s);
     }
